@@ -4,7 +4,7 @@ import common, zoo as zoolib, filelevel, workloads, iocommon
 from common import Pair, proof_stage, rebuild_tools, build_pqh, build_zoo, Lock, TRUSTED_BASE
 
 MODULE = "PQ.Props.C09"
-THEOREMS = ["PQ.C09." + t for t in ("checked_fault_reported", "dropped_fault_swallowed", "sink_sites_propagate", "sink_calls_propagate", "failing_call", "sink_inventory_covers")]
+THEOREMS = ["PQ.C09." + t for t in ("checked_fault_reported", "dropped_fault_swallowed", "sink_sites_propagate", "sink_calls_propagate", "failing_call", "sink_inventory_covers", "sink_extern_allowed")]
 
 
 def counts(calls):
